@@ -12,7 +12,7 @@ MANIFEST = {
     'text': 'Election-heavy schedules on journaled nodes with process kills (object dropped, files kept) and restarts between any two steps. Over the whole run, across incarnations: per (voter, term) at most one '
             'candidate receives response_vote; no vote is granted and no leader followed for a term below the highest term the node acknowledged before; at most one leader per term. '
             'Kill points are enumerated at step granularity (every simulator step is a possible kill point; a swarm rule kills exactly between a vote and the end of that election).',
-    'note': 'Kill = process kill between simulator steps (storage writes inside a step are completed); journal files on tmpfs; network model of pvf/sim.',
+    'note': 'Also a state monitor on the durable term itself: a journaled process stopped between two steps must start again with a term not below the one it held (term-forgotten-by-restart). Kill = process kill between simulator steps (storage writes inside a step are completed); journal files on tmpfs; network model of pvf/sim.',
 }
 LEVEL = 'fault_enumeration'
 RULE = ('case = (configuration with journal files, step list <=250 from the election profile extended with kill / kill-last-voter / restart). '
